@@ -460,3 +460,35 @@ def c16g(ctx):
     ok = bool(raises) and bool(sets) and all(any(g.dominates(s, r) for s in sets) for r in raises)
     ctx.check(ok, 'WMSServer.check_map_request:flag-before-raise', 'the size guard sets prevent_image_exception before it raises', cm,
               fail='the size guard raises without setting prevent_image_exception: an in-image error of the refused size is rendered')
+
+
+@rule('C16.h', floor=2)
+def c16h(ctx):
+    """a feature info format nobody offers is refused: WMTS check_request validates INFOFORMAT whenever it is called for a feature
+    info request -- the validation is switched off only by the default argument (info_formats is None: a tile request), not by an
+    empty collection of configured formats (then every format is unknown)"""
+    fn = ctx.fn('mapproxy/service/wmts.py:WMTSServer.check_request')
+    p = 'info_formats'
+    if p not in fn.params:
+        raise Undecided('WMTSServer.check_request has no parameter info_formats')
+    tab = ctx.rows(table(fn.node.body, lambda n: 'refuse-infoformat' if isinstance(n, ast.Raise) and 'infoformat' in unparse(n) else
+                         'refuse' if isinstance(n, ast.Raise) else 'accept'))
+    none_atoms = [a for a in tab.atoms if tab.atom_objs[a].op == '==' and {unparse(tab.atom_objs[a].left), unparse(tab.atom_objs[a].right)} == {p, 'None'}]
+    truthy = [a for a in tab.atoms if tab.atom_objs[a].op is None and unparse(tab.atom_objs[a].expr) == p]
+    known = [a for a in tab.atoms if tab.atom_objs[a].op == 'in' and 'infoformat' in unparse(tab.atom_objs[a].left)]
+    ok = len(none_atoms) == 1 and not truthy and len(known) >= 1
+    bad = []
+    if ok:
+        for asg, out, _ in tab.assignments():
+            if out != 'accept' or asg[none_atoms[0]]:
+                continue
+            # formats were given (not None) and the request was accepted: some membership test must have succeeded
+            if not any(asg[a] for a in known):
+                bad.append(asg)
+    ctx.check(ok and not bad, 'WMTSServer.check_request:infoformat-validated-unless-None',
+              'a feature info request is accepted only if its format is one of the offered ones; only info_formats=None skips the test (%d rows)' % len(tab.rows), fn,
+              fail='the INFOFORMAT validation is skipped for an empty (falsy) collection of offered formats: any format is accepted and forwarded upstream')
+    fi = ctx.fn('mapproxy/service/wmts.py:WMTSServer.featureinfo')
+    calls = [x for x in fi.walk() if is_call(x, 'self.check_request')]
+    ok = bool(calls) and all(len(x.args) >= 2 or keyword(x, 'info_formats') is not None for x in calls)
+    ctx.check(ok, 'WMTSServer.featureinfo:passes-formats', 'featureinfo hands the offered formats to check_request', fi)
